@@ -42,10 +42,10 @@ type WinCfg struct {
 	YieldP   float64 `json:"yield_p"`
 	ISSPlace int     `json:"iss_place"` // C14: 0 none, 1 stack just below 2^31, 2 stack just below 2^32, 3/4 peer likewise
 	ISSBack  int     `json:"iss_back"`
-	Cookie   bool    `json:"syn_cookies,omitempty"`   // passive open through the SYN-cookie path (listener in flood mode)
+	Cookie   bool    `json:"syn_cookies,omitempty"`      // passive open through the SYN-cookie path (listener in flood mode)
 	DupSA    bool    `json:"syn_ack_repeated,omitempty"` // active open: the peer's SYN-ACK arrives a second time (it missed the ACK)
 	SAWin    int     `json:"syn_ack_window,omitempty"`   // active open: the window the peer's SYN-ACK offers (0 = 65535)
-	ISSMid   bool    `json:"iss_mid_space,omitempty"` // the neutral twin of a C14 run: same placement, counted back from mid-space values
+	ISSMid   bool    `json:"iss_mid_space,omitempty"`    // the neutral twin of a C14 run: same placement, counted back from mid-space values
 }
 
 func neutralWin(raw json.RawMessage) json.RawMessage {
